@@ -24,7 +24,7 @@ def find_windows(ctx):
     spec = open(tlc.TLA_DIR + "/Truncation.tla").read()
     tm = {}
     for m in re.finditer(r"(\w+) \|-> <<([^>]*)>>", spec):
-        if m.group(1) in ("ASP", "GLU", "HIS", "CYS", "TYR", "LYS", "ARG", "SER", "ASN", "TRP", "GLY") and m.group(1) not in tm:
+        if m.group(1) in ("ASP", "GLU", "HIS", "CYS", "TYR", "LYS", "ARG", "SER", "ASN", "TRP", "GLY", "CTERM") and m.group(1) not in tm:
             tm[m.group(1)] = [x.strip().strip('"') for x in m.group(2).split(",")]
     wins = {}
     for src in ("1HPX", "3SGB", "1FTJ-Chain-A"):
@@ -37,6 +37,10 @@ def find_windows(ctx):
                 same_chain = all(blocks[j][0][0] == key[0] for j in range(k - 2, k + 3))
                 if set(tm[resn]) <= names and same_chain and "OXT" not in names:
                     wins[resn] = (src, [ln for j in range(k - 2, k + 3) for ln in blocks[j][1]], key)
+    # the C-terminal residue of a chain (carries OXT) with the two residues before it
+    blocks = [b for b in C.residue_blocks(C.atom_lines("1HPX")) if b[0] != "TER" and b[1][0].startswith("ATOM") and b[0][0] == "A"]
+    if blocks and any(ln[12:16].strip() == "OXT" for ln in blocks[-1][1]):
+        wins["CTERM"] = ("1HPX", [ln for b in blocks[-3:] for ln in b[1]], blocks[-1][0])
     return wins
 
 
